@@ -133,6 +133,7 @@ func describe(v reflect.Value) string {
 // roundTrip is the oracle. ok=false with stage "reject" means the parser does not accept s1 (outside the domain).
 type rtResult struct {
 	Stage string // "reject" | "" (fine) | "reparse" | "tree" | "idempotence"
+	S1    string
 	S2    string
 	Msg   string
 	T1    sqlparser.Statement
@@ -150,7 +151,7 @@ func roundTrip(s1 string) rtResult {
 	}
 	t2, err := sqlparser.Parse(s2)
 	if err != nil {
-		return rtResult{Stage: "reparse", S2: s2, T1: t1, Msg: fmt.Sprintf("the printed statement %q is rejected by the parser: %v", s2, err)}
+		return rtResult{Stage: "reparse", S1: s1, S2: s2, T1: t1, Msg: fmt.Sprintf("the printed statement %q is rejected by the parser: %v", s2, err)}
 	}
 	if d := astDiff(t1, t2); d != "" {
 		return rtResult{Stage: "tree", S2: s2, T1: t1, T2: t2, Msg: fmt.Sprintf("printed as %q, whose tree differs from the original's at %s", s2, d)}
